@@ -741,6 +741,14 @@ func TestVerifC01(t *testing.T) {
 			t.Fatalf("world: %v", err)
 		}
 		emitHist(cons, 4, res.hist.spec, res, "script-stale-lock-failed-fetch")
+		res3, err := c01StaleLockDeep(cons, 7)
+		if err != nil {
+			t.Fatalf("world: %v", err)
+		}
+		if len(res3.commits["r1n0"]) < 2 {
+			v.Oracle(false, "harness:deep-stale-lock-script-does-not-reach-the-commit:"+cons, fmt.Sprintf("replica 1 committed %v", res3.commits["r1n0"]), nil)
+		}
+		emitHist(cons, 4, res3.hist.spec, res3, "script-stale-lock-deep-failed-fetch")
 		res2, err := c01StaleQCLeader(cons, 7)
 		if err != nil {
 			t.Fatalf("world: %v", err)
@@ -1232,6 +1240,130 @@ func c01StaleLock(cons string, seed int64) (*c01Result, error) {
 				parent = nb
 			}
 		}
+	}
+	return c01Finish(h, live, 0), nil
+}
+
+// c01StaleLockDeep: as c01StaleLock, one level deeper. Replica 2 misses views 1..3 and, when it
+// processes the view-4 proposal d, can fetch the two newest missing blocks (c, b) but not the third
+// (a). The lock rule looks two certificates back only, so its lock must move to b. A replica whose
+// lock stays behind votes for the fork f below b (justified by the old QC(a)) together with
+// replica 3 (locked on a), and f is committed next to the committed b.
+func c01StaleLockDeep(cons string, seed int64) (*c01Result, error) {
+	spec := wSpec{consensus: cons, n: 4, byz: []hotstuff.ID{4}, seed: seed}
+	for i := 0; i < 20; i++ {
+		spec.leaders = append(spec.leaders, 4)
+	}
+	w, err := newWorld(spec)
+	if err != nil {
+		return nil, err
+	}
+	h := newC01Hist(w, spec)
+	B := w.nodes[NodeID{ReplicaID: 4}]
+	h1, h2, h3 := w.nodes[NodeID{ReplicaID: 1}], w.nodes[NodeID{ReplicaID: 2}], w.nodes[NodeID{ReplicaID: 3}]
+	live := []*wNode{h1, h2, h3}
+	for _, id := range w.order {
+		w.partition[id] = 0
+	}
+	flush := func() {
+		for guard := 0; len(w.pending) > 0 && guard < 10000; guard++ {
+			m := w.pending[0]
+			w.pending = w.pending[1:]
+			to := w.nodes[m.to]
+			if to.byz {
+				w.byzHandle(to, m.payload)
+				h.observe(nil)
+				continue
+			}
+			if p, ok := m.payload.(hotstuff.ProposeMsg); ok {
+				w.regProposal(&p)
+			}
+			to.eventLoop.AddEvent(m.payload)
+			w.drain(to)
+			h.observe(to)
+		}
+	}
+	k := 0
+	mk := func(view hotstuff.View, parent hotstuff.Hash, qc hotstuff.QuorumCert) *hotstuff.Block {
+		k++
+		b := hotstuff.NewBlock(parent, qc, &clientpb.Batch{Commands: []*clientpb.Command{{ClientID: 99, SequenceNumber: uint64(k), Data: []byte("byz")}}}, view, 4)
+		w.regBlock(b)
+		B.blockchain.Store(b)
+		return b
+	}
+	send := func(b *hotstuff.Block, to ...*wNode) {
+		for _, nd := range to {
+			w.byzSendTo(B, nd, hotstuff.ProposeMsg{ID: 4, Block: b})
+		}
+		flush()
+	}
+	newview := func(qc hotstuff.QuorumCert, to ...*wNode) {
+		for _, nd := range to {
+			w.byzSendTo(B, nd, hotstuff.NewViewMsg{ID: 4, SyncInfo: hotstuff.NewSyncInfoWith(qc), FromNetwork: true})
+		}
+		flush()
+	}
+	certify := func(b *hotstuff.Block) (hotstuff.QuorumCert, bool) {
+		if pc, err := B.auth.CreatePartialCert(b); err == nil {
+			B.votesSeen[b.Hash()] = append(B.votesSeen[b.Hash()], pc)
+		}
+		w.byzAssemble(B)
+		h.observe(nil)
+		for _, q := range w.qcs {
+			if q.BlockHash() == b.Hash() {
+				return q, true
+			}
+		}
+		return hotstuff.QuorumCert{}, false
+	}
+	gen := hotstuff.GetGenesis()
+	genQC := B.viewStates.HighQC()
+	// views 1..3: h1, h3 and the leader certify a <- b <- c (h2 sees nothing); h3 ends up locked on a
+	a := mk(1, gen.Hash(), genQC)
+	send(a, h1, h3)
+	qa, oka := certify(a)
+	if !oka {
+		return c01Finish(h, live, 0), nil
+	}
+	b := mk(2, a.Hash(), qa)
+	send(b, h1, h3)
+	qb, okb := certify(b)
+	if !okb {
+		return c01Finish(h, live, 0), nil
+	}
+	c := mk(3, b.Hash(), qb)
+	send(c, h1, h3)
+	qc, okc := certify(c)
+	if !okc {
+		return c01Finish(h, live, 0), nil
+	}
+	// h2 can obtain c and b but not a (its requests for a are lost); it is walked up with QC(c) and
+	// processes d: its lock must move to b (two certificates back) although the block three back is missing
+	w.fetchDeny = func(req NodeID, x hotstuff.Hash) bool { return req == h2.id && x == a.Hash() }
+	d := mk(4, c.Hash(), qc)
+	newview(qc, h1, h2)
+	newview(qc, h2)
+	send(d, h1, h2)
+	qd, okd := certify(d)
+	if !okd {
+		return c01Finish(h, live, 0), nil
+	}
+	// only h1 sees e: it commits a, b
+	e := mk(5, d.Hash(), qd)
+	send(e, h1)
+	// the fork below b, justified by the old QC(a), for h2 and h3 (the lost requests were transient)
+	w.fetchDeny = nil
+	newview(qc, h3)
+	newview(qd, h3, h2)
+	f := mk(5, a.Hash(), qa)
+	send(f, h2, h3)
+	parent := f
+	q, okf := certify(f)
+	for v := 6; v <= 9 && okf; v++ {
+		nb := mk(hotstuff.View(v), parent.Hash(), q)
+		send(nb, h2, h3)
+		q, okf = certify(nb)
+		parent = nb
 	}
 	return c01Finish(h, live, 0), nil
 }
